@@ -40,6 +40,9 @@ const POOL: &[Pat] = &[
 /// patterns of POOL whose occurrences can be found shorter in a block that ends inside them: (index, shortest prefix that matches)
 const GREEDY: &[(usize, usize)] = &[(9, 3), (13, 3), (14, 6), (15, 1), (16, 2), (18, 4)];
 
+/// rule `$a <where> and $b`: (kind 0 `at 0` | 1 `at n` | 2 `in (0..n)`, n, $a's literal, index of the plain rule that has $b's pattern)
+type Hdr = (u8, u64, Vec<u8>, usize);
+
 type Forced = (Vec<usize>, Vec<u8>, Vec<(usize, usize)>, usize, Vec<(u64, Vec<u8>, bool)>);
 
 /// Directed scenario: an occurrence of a greedy pattern straddles the END of one block (which sees a shorter
@@ -121,7 +124,7 @@ fn match_list_cases(rng: &mut Rng, n: usize, shards: &mut Shards, stats: &mut St
         let fin = yara_x::Scanner::verif_match_list_with_base(&adds);
         stats.inc("match_list_cases");
         if adds.iter().enumerate().any(|(j, a)| adds[..j].iter().any(|b| b.1 == a.1 && b.0 != a.0 && a.2 > b.2 && a.3)) { stats.inc("match_list_longer_same_start_other_base"); }
-        let case = format!("mkCase [] 0%N [] [] [] [] [] [] [({}, {})]",
+        let case = format!("mkCase [] 0%N [] [] [] [] [] [] [({}, {})] []",
             coq_list(&adds, |a| format!("({}, {}, {}, {})", coq_n(a.0 as u64), coq_n(a.1 as u64), coq_n(a.2 as u64), coq_bool(a.3))),
             coq_list(&fin, |m| format!("({}, {}, {})", coq_n(m.0 as u64), coq_n(m.1 as u64), coq_n(m.2 as u64))));
         shards.push(case, format!("{{\"match_list\":true,\"index\":{},\"adds_base_start_end_replace\":{},\"final_base_start_end\":{}}}", i, json_str(&format!("{:?}", adds)), json_str(&format!("{:?}", fin))));
@@ -180,7 +183,7 @@ fn whole_file_cases(shards: &mut Shards, stats: &mut Stats) {
             for (notion, d) in defined.iter().enumerate() {
                 stats.inc("whole_file_cases");
                 if *d { stats.inc(&format!("whole_file_defined_{}_{}", NOTIONS[notion], HISTORIES[h])); }
-                let case = format!("mkCase [] 0%N [] [] [] [] [({}, {}, {})] [] []", coq_n(h as u64), coq_n(notion as u64), coq_bool(*d));
+                let case = format!("mkCase [] 0%N [] [] [] [] [({}, {}, {})] [] [] []", coq_n(h as u64), coq_n(notion as u64), coq_bool(*d));
                 let replay = format!("{{\"whole_file\":true,\"rules_source\":{},\"history\":\"{}\",\"previous_file_hex\":\"{}\",\"block_hex\":\"{}\",\"notion\":\"{}\",\"defined_in_block_mode\":{}}}",
                     json_str(WHOLE), HISTORIES[h], hex(data), hex(blk), NOTIONS[notion], d);
                 shards.push(case, replay);
@@ -234,6 +237,23 @@ pub fn run(args: &[String]) -> i32 {
         // base == N, base == N + 1, base < N < base + len, and the literal cut by the block's end
         (vec![0], b"xxxxabcabc abc".to_vec(), vec![(4, 3), (5, 9), (2, 4), (7, 7)], 0, vec![(4, b"abc".to_vec(), true), (7, b"abc".to_vec(), false)]),
     ];
+    // header-constraint rules for corpus cases (keyed by the position of the case, from 1)
+    let mut hdr_for: std::collections::HashMap<usize, Vec<Hdr>> = std::collections::HashMap::new();
+    {
+        let file = b"MZ.. needle .... abc ....".to_vec();
+        let mut add = |blocks: Vec<(usize, usize)>, hdrs: Vec<Hdr>, corpus: &mut Vec<Forced>| { corpus.push((vec![0], file.clone(), blocks, 0, vec![])); hdr_for.insert(corpus.len(), hdrs); };
+        // `$a at 0 and $b`: $b occurs only in a block whose base is not 0 (a header check applied to that block would disable $b)
+        add(vec![(0, 4), (4, 21)], vec![(0, 0, b"MZ".to_vec(), 0)], &mut corpus);
+        add(vec![(4, 21), (0, 4)], vec![(0, 0, b"MZ".to_vec(), 0)], &mut corpus);
+        add(vec![(0, 25)], vec![(0, 0, b"MZ".to_vec(), 0), (1, 5, b"needle".to_vec(), 0), (2, 8, b"needle".to_vec(), 0)], &mut corpus);
+        // the base-0 block does not start with the header / is absent
+        add(vec![(2, 23)], vec![(0, 0, b"MZ".to_vec(), 0)], &mut corpus);
+        add(vec![(0, 4), (4, 21)], vec![(0, 0, b"ZM".to_vec(), 0)], &mut corpus);
+        // a block at base 0 that is shorter than the header, or empty, before the block that contains it
+        add(vec![(0, 0), (0, 25)], vec![(0, 0, b"MZ".to_vec(), 0)], &mut corpus);
+        add(vec![(0, 1), (0, 2), (2, 23)], vec![(0, 0, b"MZ".to_vec(), 0)], &mut corpus);
+        add(vec![(0, 25), (0, 1)], vec![(0, 0, b"MZ".to_vec(), 0)], &mut corpus);
+    }
     while shards.total < n {
         idx += 1;
         let from_corpus = !corpus.is_empty();
@@ -297,6 +317,29 @@ pub fn run(args: &[String]) -> i32 {
         for (k, (n, lit, or_true)) in anchored.iter().enumerate() {
             src.push_str(&format!("rule a{} {{ strings: $a = \"{}\" $b = \"ij\" condition: $a at {} or {} }}\n", k, String::from_utf8_lossy(lit), n, if *or_true { "$b or true" } else { "$b" }));
         }
+        // rules `$a at 0 / at n / in (0..n) and $b` where $b is the pattern of one of the plain rules: the conditions
+        // from which the compiler derives header constraints and fixed-offset checks
+        let mut hdrs: Vec<Hdr> = vec![];
+        let mut short_header_block: Option<usize> = None;
+        if from_corpus { if let Some(h) = hdr_for.get(&idx) { hdrs = h.clone(); } }
+        else if forced.is_none() && rng.chance(1, 2) {
+            for _ in 0..(1 + rng.below(2)) {
+                let lit: &[u8] = *rng.pick(&[&b"MZ"[..], &b"abc"[..], &b"Lorem"[..], &b"\x7fELF"[..]]);
+                let kind = *rng.pick(&[0u8, 0, 1, 2]);
+                let n = match kind { 0 => 0, 1 => 1 + rng.below(9) as usize, _ => rng.below(40) as usize };
+                let at = match kind { 2 => rng.below(n as u64 + 4) as usize, _ => n };
+                if rng.chance(2, 3) && at + lit.len() < flen { file[at..at + lit.len()].copy_from_slice(lit); }
+                if rng.chance(1, 2) { forced_cuts.push(at + lit.len()); }
+                if rng.chance(1, 3) { forced_cuts.push(at + 1); }
+                if kind == 0 && rng.chance(1, 4) { short_header_block = Some(rng.below(lit.len() as u64) as usize); }
+                hdrs.push((kind, n as u64, lit.to_vec(), rng.below(np as u64) as usize));
+            }
+        }
+        for (k, (kind, n, lit, j)) in hdrs.iter().enumerate() {
+            let lit_src: String = lit.iter().map(|b| if b.is_ascii_alphanumeric() { (*b as char).to_string() } else { format!("\\x{:02x}", b) }).collect();
+            let wh = match kind { 0 => "$a at 0".to_string(), 1 => format!("$a at {}", n), _ => format!("$a in (0..{})", n) };
+            src.push_str(&format!("rule h{} {{ strings: $a = \"{}\" $b = {} condition: {} and $b }}\n", k, lit_src, POOL[chosen[*j]].def, wh));
+        }
         let rules = match yara_x::compile(src.as_str()) { Ok(r) => r, Err(e) => { eprintln!("c14: generator produced a rejected source: {e}\n{src}"); return 2; } };
         // blocks: cut the file, then drop / extend / add empty / repeat / shuffle
         let mut cuts: Vec<usize> = (0..rng.below(6)).map(|_| rng.below(flen as u64 + 1) as usize).collect();
@@ -330,6 +373,11 @@ pub fn run(args: &[String]) -> i32 {
         let mut ctx = *rng.pick(&[0usize, 0, 3, 16]);
         let mut used = rng.below(3);
         if let Some(f) = &forced { blocks = f.2.clone(); ctx = f.3; if from_corpus { used = 0; } }
+        if let Some(len) = short_header_block {
+            // a block at base 0 that is shorter than the header (or empty), somewhere in the delivery order
+            let at = rng.below(blocks.len() as u64 + 1) as usize;
+            blocks.insert(at, (0, len.min(flen))); stats.inc("short_block_at_base_0");
+        }
 
         // per-block reference
         let mut per_block: Vec<Vec<Vec<M>>> = vec![];
@@ -354,8 +402,15 @@ pub fn run(args: &[String]) -> i32 {
             let mut out: Vec<Vec<BlkMatch>> = (0..np).map(|_| vec![]).collect();
             let mut verdicts: Vec<bool> = vec![false; derived.len()];
             let mut anch: Vec<Option<Vec<BlkMatch>>> = (0..anchored.len()).map(|_| None).collect();
+            let mut hres: Vec<Option<Vec<u64>>> = (0..hdrs.len()).map(|_| None).collect();
             for rule in r.matching_rules() {
                 let id = rule.identifier();
+                if let Some(i) = id.strip_prefix("h").and_then(|s| s.parse::<usize>().ok()) {
+                    let mut v = vec![];
+                    for p in rule.patterns().filter(|p| p.identifier() == "$b") { for m in p.matches() { let _ = (m.data(), m.data_with_context()); v.push(m.range().start as u64); } }
+                    hres[i] = Some(v);
+                    continue;
+                }
                 if let Some(i) = id.strip_prefix("a").and_then(|s| s.parse::<usize>().ok()) {
                     let mut v = vec![];
                     for p in rule.patterns().filter(|p| p.identifier() == "$a") { for m in p.matches() {
@@ -372,12 +427,12 @@ pub fn run(args: &[String]) -> i32 {
                     } }
                 } else if let Some(i) = id.strip_prefix("d").and_then(|s| s.parse::<usize>().ok()) { verdicts[i] = true; }
             }
-            (out, verdicts, anch)
+            (out, verdicts, anch, hres)
         }));
-        let (block_res, verdicts, anch) = match res { Ok(x) => x, Err(e) => {
+        let (block_res, verdicts, anch, hres) = match res { Ok(x) => x, Err(e) => {
             // a panic is a violation of its own: write a case that fails S (no block results, all per-block results lost)
             stats.inc("block_scanner_panicked");
-            let case = format!("mkCase {} {} {} {} {} [(0%N, DCountGe 0%N, false)] [] [] []", coq_bytes(&file), coq_n(ctx as u64), coq_list(&blocks, |b| format!("({}, {})", coq_n(b.0 as u64), coq_n(b.1 as u64))),
+            let case = format!("mkCase {} {} {} {} {} [(0%N, DCountGe 0%N, false)] [] [] [] []", coq_bytes(&file), coq_n(ctx as u64), coq_list(&blocks, |b| format!("({}, {})", coq_n(b.0 as u64), coq_n(b.1 as u64))),
                 coq_list(&per_block, |pb| coq_list(pb, |ms| coq_list(ms, |m| format!("({},{},{})%N", m.0, m.1, m.2)))), coq_list(&vec![0; np], |_| "[]".to_string()));
             shards.push(case, format!("{{\"index\":{},\"panic\":{},\"rules_source\":{},\"file_hex\":\"{}\",\"blocks\":{},\"context_size\":{},\"scanner\":{}}}", idx, json_str(&e), json_str(&src), hex(&file), json_str(&format!("{:?}", blocks)), ctx, used));
             continue;
@@ -408,18 +463,32 @@ pub fn run(args: &[String]) -> i32 {
             if blocks.iter().any(|b| b.0 as u64 == *n) { stats.inc("anchored_block_at_anchor"); }
             if res.as_ref().map_or(false, |v| !v.is_empty()) { stats.inc("anchored_match_reported"); }
         }
-        let case = format!("mkCase {} {} {} {} {} {} [] {} []", coq_bytes(&file), coq_n(ctx as u64),
+        // what the rule must do, computed from the file and the delivered blocks (used for the classification of a failure only)
+        let lit_at = |lit: &[u8], p: usize| p + lit.len() <= file.len() && &file[p..p + lit.len()] == lit && blocks.iter().any(|b| b.0 <= p && p + lit.len() <= b.0 + b.1);
+        let mut hdr_notes: Vec<String> = vec![];
+        for ((kind, n, lit, j), r) in hdrs.iter().zip(hres.iter()) {
+            let a_ok = match kind { 0 => lit_at(lit, 0), 1 => lit_at(lit, *n as usize), _ => (0..=*n as usize).any(|p| lit_at(lit, p)) };
+            let expected = a_ok && !block_res[*j].is_empty();
+            let short = *kind == 0 && blocks.iter().any(|b| b.0 == 0 && b.1 < lit.len());
+            stats.inc(&format!("header_rule_kind{}_{}", kind, if expected { "must_match" } else { "must_not_match" }));
+            if *kind == 0 && blocks.iter().any(|b| b.0 != 0 && !file[b.0..b.0 + b.1].starts_with(lit)) && expected { stats.inc("header_rule_must_match_with_nonzero_base_block_not_starting_with_header"); }
+            hdr_notes.push(format!("{{\"kind\":{},\"n\":{},\"literal_hex\":\"{}\",\"b_pattern_of_rule\":\"p{}\",\"matched\":{},\"expected\":{},\"base0_block_shorter_than_header\":{}}}", kind, n, hex(lit), j, r.is_some(), expected, short));
+        }
+        let coq_hdr = coq_list(&hdrs.iter().zip(hres.iter()).collect::<Vec<_>>(), |((kind, n, lit, j), r)| format!("({}, {}, {}, {}, {}, {})", coq_n(*kind as u64), coq_n(*n), coq_bytes(lit), coq_n(*j as u64),
+            coq_bool(r.is_some()), coq_list(r.as_deref().unwrap_or(&[]), |x| coq_n(*x))));
+        let case = format!("mkCase {} {} {} {} {} {} [] {} [] {}", coq_bytes(&file), coq_n(ctx as u64),
             coq_list(&blocks, |b| format!("({}, {})", coq_n(b.0 as u64), coq_n(b.1 as u64))),
             coq_list(&per_block, |pb| coq_list(pb, |ms| coq_list(ms, |m| format!("({},{},{})%N", m.0, m.1, m.2)))),
             coq_list(&block_res, |ms| coq_list(ms, |b| format!("(({},{},{})%N, {}, {}, {})", b.m.0, b.m.1, b.m.2, coq_bytes(&b.data), coq_bytes(&b.ctx), coq_n(b.rel)))),
             coq_list(&derived.iter().zip(verdicts.iter()).collect::<Vec<_>>(), |((i, k), v)| format!("({}, {}, {})", coq_n(*i as u64),
                 match k { Derived::At(a) => format!("DAt {}", coq_n(*a)), Derived::In(a, b) => format!("DIn {} {}", coq_n(*a), coq_n(*b)), Derived::CountGe(c) => format!("DCountGe {}", coq_n(*c)) }, coq_bool(**v))),
-            coq_anch);
-        let replay = format!("{{\"index\":{},\"seed\":{},\"rules_source\":{},\"file_hex\":\"{}\",\"blocks\":{},\"context_size\":{},\"scanner\":\"{}\",\"block_matches\":{},\"per_block_matches\":{},\"derived\":{},\"anchored\":{}}}",
+            coq_anch, coq_hdr);
+        let replay = format!("{{\"index\":{},\"seed\":{},\"rules_source\":{},\"file_hex\":\"{}\",\"blocks\":{},\"context_size\":{},\"scanner\":\"{}\",\"block_matches\":{},\"per_block_matches\":{},\"derived\":{},\"anchored\":{},\"header_rules\":[{}]}}",
             idx, seed, json_str(&src), hex(&file), json_str(&format!("{:?}", blocks)), ctx, ["fresh", "converted_from_used_scanner", "reused_block_scanner"][used as usize],
             json_str(&format!("{:?}", block_res.iter().map(|v| v.iter().map(|b| b.m).collect::<Vec<_>>()).collect::<Vec<_>>())),
             json_str(&format!("{:?}", per_block)), json_str(&format!("{:?} -> {:?}", derived, verdicts)),
-            json_str(&format!("{:?}", anchored.iter().zip(anch.iter()).map(|((n, lit, _), r)| (n, String::from_utf8_lossy(lit).to_string(), r.as_ref().map(|v| v.iter().map(|b| b.m).collect::<Vec<_>>()))).collect::<Vec<_>>())));
+            json_str(&format!("{:?}", anchored.iter().zip(anch.iter()).map(|((n, lit, _), r)| (n, String::from_utf8_lossy(lit).to_string(), r.as_ref().map(|v| v.iter().map(|b| b.m).collect::<Vec<_>>()))).collect::<Vec<_>>())),
+            hdr_notes.join(","));
         if samples.len() < 3 && blocks.len() >= 3 { samples.push(replay.clone()); }
         shards.push(case, replay);
     }
